@@ -45,7 +45,9 @@ Theorem ds_reindex_shared k news r fill fk re s s' :
   ds_reindex_axis k news r fill fk re s = Ok s' -> Shared s' /\ dsattrs s' = dsattrs s.
 Proof.
   unfold ds_reindex_axis. destruct (ds_axis_ref s r); simpl; [|discriminate].
-  destruct (if re then _ else _); simpl; [|discriminate]. apply ds_per_variable_shared.
+  destruct (_ && _).
+  - destruct (mapM_vars _ _); simpl; [|discriminate]. apply construct_shared.
+  - destruct (if re then _ else _); simpl; [|discriminate]. apply ds_per_variable_shared.
 Qed.
 Theorem ds_interp_shared k news r l rr s s' :
   ds_interp_axis k news r l rr s = Ok s' -> Shared s' /\ dsattrs s' = dsattrs s.
